@@ -156,6 +156,31 @@ def subst(f, var, other=None, rename=None):
     return f
 
 
+def const_inst(f, cterm):
+    """The membership formula f (over the placeholder '$') evaluated at the named element `cterm`: `$ = t` becomes
+    true for t == cterm and false otherwise (distinct terms are distinct IDs; alias valuations substitute names before
+    the walk), `$ in REL[k]` becomes the ground atom `cterm in REL[k]`.  With cterm None: evaluated away from every
+    named element (all equalities false, memberships kept as they are).  None if f has atoms of another kind."""
+    t = f[0]
+    if t == "atom":
+        if f[1] != "$":
+            return f
+        if f[2] == "=":
+            return TRUE if (cterm is not None and f[3] == cterm) else FALSE
+        if f[2] == "in":
+            return f if cterm is None else ("atom", cterm, "in", f[3])
+        return None
+    if t in ("and", "or"):
+        parts = [const_inst(g, cterm) for g in f[1:]]
+        if any(p is None for p in parts):
+            return None
+        return And(*parts) if t == "and" else Or(*parts)
+    if t == "not":
+        g = const_inst(f[1], cterm)
+        return None if g is None else Not(g)
+    return f
+
+
 def positive_conjuncts(f):
     if f[0] == "and":
         out = []
@@ -303,6 +328,7 @@ class MethodAnalysis:
         self.return_conds = []  # path conditions at each `return`
         self.key_cover = {}  # table -> [formula over $]: IDs made keys by a completed creation loop of this call
         self.accepted = set()  # key terms accepted by an IDDict store
+        self.size_formulas = {}  # (condition id, id(Compare node)) -> formula of a size comparison, fixed when the branch is taken
         self.memb = set()  # (rel-with-side, edge term, node term) memberships known to hold
         self.hashable_sources = set()
         self.nonnull_sources = set()
@@ -491,6 +517,11 @@ class MethodAnalysis:
             return None if r is None else r[len(conds):]
         self.if_counter += 1
         cid = self.if_counter
+        for sub in ast.walk(st.test):
+            if isinstance(sub, ast.Compare) and len(sub.ops) == 1 and isinstance(sub.ops[0], (ast.Eq, ast.NotEq)):
+                f = Balance(self).size_compare(sub, env)
+                if f is not None:
+                    self.size_formulas[(cid, id(sub))] = f
         ct = ("if", cid, True, st.test, dict(env))
         cf = ("if", cid, False, st.test, dict(env))
         e1, e2 = dict(env), dict(env)
@@ -1457,6 +1488,16 @@ class MethodAnalysis:
             return SetV(fs, entry=None)
         if m in ("add", "remove", "discard") and isinstance(recv_node, ast.Name) and args and isinstance(args[0], (Sc, CallerData)):
             a = self.key_scalar(args[0], st)
+            if m == "remove" and node.args and isinstance(node.args[0], ast.Name) and a.dom is None:
+                # the call returned: the element was in the set (otherwise KeyError); later conditions that compare
+                # sizes need this fact.  Recorded as a path condition with the pre-state of the local set.
+                self.if_counter += 1
+                t = ast.Compare(left=ast.Name(id=node.args[0].id, ctx=ast.Load()), ops=[ast.In()], comparators=[ast.Name(id=recv_node.id, ctx=ast.Load())])
+                ast.copy_location(t, node)
+                ast.fix_missing_locations(t)
+                t._const_membership = True
+                t._const_formula = const_inst(s.f, a.term)
+                self.pending_conds.append(("if", self.if_counter, True, t, dict(env)))
             nf = Or(s.f, Atom("$", "=", a.term)) if m == "add" else And(s.f, Not(Atom("$", "=", a.term)))
             env[recv_node.id] = SetV(nf, source=s.source, materialized=True, caller=s.caller)
             return Opaque(m)
@@ -1812,10 +1853,66 @@ class Balance:
                     if s is not None:
                         f = subst(s.f, var, rename=rename)
                         return f if isinstance(test.ops[0], ast.In) else Not(f)
+        if getattr(test, "_const_membership", False) and getattr(test, "_const_formula", None) is not None:
+            return test._const_formula
+        if isinstance(test, ast.Compare) and (cid, id(test)) in ma.size_formulas:
+            # computed when the branch was taken (the contents of the stored entries are those of that moment)
+            return ma.size_formulas[(cid, id(test))]
         text = ast.unparse(test)
         for a, b in rename.items():
             text = text.replace(a, b)
         return Atom("c", "c", f"{text}")
+
+    def size_compare(self, test, cenv):
+        """`len(A) != len(B)` where A and B are sets that differ only in finitely many named elements (a local copy of
+        a stored entry after remove / add of given IDs): |A| - |B| is the sum over those IDs c of [c in A] - [c in B],
+        each a formula over atoms `c in <stored entry>`; the comparison is the disjunction of the assignments where the
+        sum is not zero.  None when the shape is not recognised (the caller falls back to an opaque condition)."""
+        ma = self.ma
+        sides = []
+        for e in (test.left, test.comparators[0]):
+            if not (isinstance(e, ast.Call) and isinstance(e.func, ast.Name) and e.func.id == "len" and len(e.args) == 1 and not e.keywords):
+                return None
+            try:
+                v = ma.ev(e.args[0], dict(cenv), (), (), test, quiet=True)
+            except (Unsupported, Infeasible):
+                return None
+            sv = ma.as_set(v)
+            if sv is None or (sv.source and not sv.materialized):
+                return None
+            sides.append(sv.f)
+        fa, fb = sides
+        consts = sorted({a[3] for a in atoms_of(fa) | atoms_of(fb) if a[1] == "$" and a[2] == "="})
+        if len(consts) > 4:
+            return None
+        # away from the named elements the two sets must be the same set
+        ra, rb = const_inst(fa, None), const_inst(fb, None)
+        if ra is None or rb is None:
+            return None
+        ats = sorted(atoms_of(ra) | atoms_of(rb))
+        if len(ats) > 10:
+            return None
+        for bits in itertools.product((False, True), repeat=len(ats)):
+            asg = dict(zip(ats, bits))
+            if evalf(ra, asg) != evalf(rb, asg):
+                return None
+        per = []
+        for c in consts:
+            a_c, b_c = const_inst(fa, c), const_inst(fb, c)
+            if a_c is None or b_c is None:
+                return None
+            per.append((a_c, b_c))
+        cats = sorted(set().union(*[atoms_of(x) | atoms_of(y) for x, y in per])) if per else []
+        if len(cats) > 8:
+            return None
+        differ = []
+        for bits in itertools.product((False, True), repeat=len(cats)):
+            asg = dict(zip(cats, bits))
+            d = sum(int(evalf(x, asg)) - int(evalf(y, asg)) for x, y in per)
+            if d != 0:
+                differ.append(And(*[(a if v else Not(a)) for a, v in asg.items()]))
+        f = Or(*differ) if differ else FALSE
+        return f if isinstance(test.ops[0], ast.NotEq) else Not(f)
 
     def event_formula(self, ev: Event, fixed_loops=()):
         """Formula over e/x (pair events) or k (key events) describing the pairs/keys this event adds or removes."""
@@ -1937,7 +2034,34 @@ class Balance:
                 gen = ("atom", "x", "in", f"E{('.' + DUAL_SIDE[p[1]]) if p[1] else ''}[e]")
                 if gen in asg and asg[gen] != asg[a]:
                     return False
-        # two different constant terms cannot both equal the generic variable when they are distinct automatic IDs etc.: not assumed
+        # ground facts: every atom that, under the equalities this assignment makes true, speaks about the same
+        # (node, edge, side) pair of the pre-state has the same truth value (this ties the atoms about named elements,
+        # `P:n in E[P:e]`, to the generic ones and to their duals)
+        res_x = next((a[3] for a in xeq if asg[a]), None)
+        res_e = next((a[3] for a in eeq if asg[a]), None)
+        ground = {}
+        for a in atoms:
+            if a[0] != "atom" or a[2] != "in":
+                continue
+            p = parse(a[3])
+            if not p:
+                continue
+            var = a[1]
+            member = res_x if var == "x" else (res_e if var == "e" else (var if var not in ("k", "c", "$") else None))
+            key = res_e if p[2] == "e" else (res_x if p[2] == "x" else p[2])
+            if member is None or key is None:
+                continue
+            if p[0] == "E":
+                if var == "e":
+                    continue
+                fact = (member, key, p[1])
+            else:
+                if var == "x":
+                    continue
+                fact = (key, member, DUAL_SIDE[p[1]])
+            if fact in ground and ground[fact] != asg[a]:
+                return False
+            ground[fact] = asg[a]
         return True
 
     def accumulators_ok(self, asg):
